@@ -59,7 +59,7 @@ fire("limit-ge", ["C07"], "count > limit", E("src/vm.rs", "if backtrack_count > 
 fire("repeatgr-gt-lo", ["C07", "C01"], "RepeatGr", E("src/vm.rs", "                    if repcount >= lo {\n                        state.push(next, ix)?;", "                    if repcount > lo {\n                        state.push(next, ix)?;", 0))
 fire("repeatng-push-pc", ["C07", "C01"], "RepeatNg", E("src/vm.rs", "                        state.push(pc + 1, ix)?;\n                        pc = next;", "                        state.push(pc, ix)?;\n                        pc = next;", 0))
 fire("epsng-or", ["C07"], "RepeatEpsilonNg", E("src/vm.rs", "if repcount > lo && state.get(check) == ix {", "if repcount > lo || state.get(check) == ix {", 1))
-fire("repcount-plus2", ["C07", "C01"], "repcount + 1", E("src/vm.rs", "                    state.save(repeat, repcount + 1);\n                    if repcount >= lo {\n                        state.push(next, ix)?;", "                    state.save(repeat, repcount + 2);\n                    if repcount >= lo {\n                        state.push(next, ix)?;", 0))
+fire("repcount-plus2", ["C07", "C01"], "store count + 1", E("src/vm.rs", "                    state.save(repeat, repcount + 1);\n                    if repcount >= lo {\n                        state.push(next, ix)?;", "                    state.save(repeat, repcount + 2);\n                    if repcount >= lo {\n                        state.push(next, ix)?;", 0))
 fire("push-cap-off", ["C07"], "cap", E("src/vm.rs", "if self.stack.len() < self.max_stack {", "if self.stack.len() < self.max_stack || true {"))
 # ---------------- compiler templates / context
 fire("eps-selected-wrong", ["C07", "C01"], "empty-iteration guard", E("src/compile.rs", "if hi == usize::MAX && child.min_size == 0 {", "if hi == usize::MAX && child.min_size == 0 && lo > 0 {"))
